@@ -26,15 +26,16 @@ type verifInPacket struct {
 // armed and only after progress since it was armed (the property's premise).
 type verifInConn struct {
 	verifConn
-	progress bool
-	expiries int
-	onRead   func()
-	mustArm  bool // reads must happen under an armed read deadline
-	unarmed  int
-	expired  bool  // a deadline expired and was not renewed yet: every read fails at once
-	bounds   []int // packet boundaries of the inbound stream (offsets)
-	armMid   bool  // with PauseTimeout set, reads inside a packet need an armed deadline
+	progress   bool
+	expiries   int
+	onRead     func()
+	mustArm    bool // reads must happen under an armed read deadline
+	unarmed    int
+	expired    bool  // a deadline expired and was not renewed yet: every read fails at once
+	bounds     []int // packet boundaries of the inbound stream (offsets)
+	armMid     bool  // with PauseTimeout set, reads inside a packet need an armed deadline
 	midUnarmed int
+	rcoarse    bool // short reads return 1, 2, n-1 or n bytes only
 }
 
 func verifNewBufr(conn net.Conn) *bufio.Reader { return bufio.NewReaderSize(conn, readBufSize) }
@@ -96,7 +97,11 @@ func (c *verifInConn) Read(p []byte) (int, error) {
 	}
 	if c.rcuts > 0 && n > 1 {
 		c.rcuts--
-		n = 1 + verifChoose("rn", n)
+		if c.rcoarse && n > 4 {
+			n = []int{1, 2, n - 1, n}[verifChoose("rn", 4)]
+		} else {
+			n = 1 + verifChoose("rn", n)
+		}
 	}
 	copy(p, c.in[c.rpos:c.rpos+n])
 	c.rpos += n
@@ -153,6 +158,55 @@ func verifInboundStream(maxPackets int, bigAllowed bool) []verifInPacket {
 		ps = append(ps, p)
 	}
 	return ps
+}
+
+// verifH_C06_discard: skipping n payload bytes (an unread BigMessage, a big
+// duplicate) consumes exactly n bytes of the stream, for any fragmentation and
+// any number of deadline expiries with progress in between; every read
+// happens under an armed deadline when PauseTimeout is set.
+func verifH_C06_discard() {
+	verifUnwind(400)
+	cfg := &Config{PauseTimeout: verifTimeoutChoice()}
+	c := verifNewClient(&verifStore{}, cfg)
+	conn := &verifInConn{rcoarse: true}
+	conn.rcuts = verifParam("cuts", 2)
+	conn.rEOF = true
+	if cfg.PauseTimeout != 0 {
+		conn.rfaults = verifParam("expiries", 3)
+	}
+	total := 2*readBufSize + 4
+	for i := 0; i < total; i++ {
+		conn.in = append(conn.in, byte(i+1))
+	}
+	c.readConn = conn
+	c.bufr = bufio.NewReaderSize(conn, readBufSize)
+	consumed := 0
+	if verifChoose("prebuffered", 2) == 1 {
+		// part of the payload sits in the buffer already (read together with the header)
+		_, err := c.bufr.ReadByte()
+		verifAssert(err == nil, "harness: first byte")
+		consumed = 1
+	}
+	n := verifInt("n") // every size at once: the solver splits it where the code does
+	verifAssume(n >= 1)
+	verifAssume(n <= total-2)
+	conn.mustArm = cfg.PauseTimeout != 0
+	err := c.discard(n)
+	conn.mustArm = false
+	verifAssert(conn.unarmed == 0, "C13: discard reads from the connection without a read deadline although PauseTimeout is set")
+	verifAssert(err == nil, "C06: skipping bytes that arrive with progress before every expiry fails")
+	if err != nil {
+		return
+	}
+	conn.rfaults = 0
+	conn.expired = false
+	b, rerr := c.bufr.ReadByte()
+	verifAssert(rerr == nil, "C06: the stream is unreadable after a skip")
+	verifAssert(int(b) == consumed+n+1, "C06: a skipped payload consumed more or fewer bytes than its size (the stream is misaligned for every packet that follows)")
+	if conn.expiries >= 2 {
+		verifReach("two-expiries")
+	}
+	verifReach("end")
 }
 
 // verifH_C06_stream: well-formed stream, arbitrary cuts and expiries with
